@@ -75,9 +75,10 @@ func ZZ_C16_BVHNearestHit() {
 			items = append(items, b)
 		}
 	}
-	dirs := []vector3.Float64{vector3.New(1., 0., 0.), vector3.New(-1., 0., 0.), vector3.New(0.6, 0.8, 0.), vector3.New(0., 0., 1.)}
+	// every component non-zero: the slab test divides by the direction (1/0 = Inf natively, not representable over the reals)
+	dirs := []vector3.Float64{vector3.New(2., 1., 2.), vector3.New(-2., 2., 1.), vector3.New(6., -2., 3.), vector3.New(1., 4., -8.)}
 	dir := dirs[zz.Choose("dir", zz.Bound("DIRS"))]
-	origin := vector3.New(zz.Float64("o.x"), 0.125, 0.25)
+	origin := vector3.New(zz.Float64("o.x"), -1.5, -2.25)
 	maxT := 100.0
 	if zz.Bool("shortRange") {
 		maxT = 3
